@@ -132,5 +132,5 @@ L:
 		return nil, ctx.Err()
 	}
 
-	return &Conn{conn, CMSTargetCall}, nil
+	return &Conn{Conn: conn, remoteCall: CMSTargetCall}, nil
 }
